@@ -293,7 +293,102 @@ fn run_v6(a: &Args) -> Report {
     rep
 }
 
+/// The process runs out of file descriptors while a client is waiting to be accepted: a shortage in the process, not a
+/// fault of the listening socket. Once descriptors are available again, that client and later ones are served.
+fn run_emfile(a: &Args) -> Report {
+    rt::quiet_panics();
+    let mut rep = Report::new("C18", &a.leg, a.seed);
+    let runtime = tokio::runtime::Builder::new_multi_thread().worker_threads(2).enable_all().build().expect("tokio runtime");
+    let mut ports = Ports::new(a, 2);
+    let rounds = a.budget(2, 20);
+    for round in 0..rounds {
+        let mut built = None;
+        let mut port = 0;
+        for _ in 0..8 {
+            port = ports.pick();
+            let b = PrometheusBuilder::new().with_http_listener(SocketAddr::V4(SocketAddrV4::new(Ipv4Addr::new(127, 0, 0, 1), port)));
+            if let Ok(x) = runtime.block_on(async { b.build() }) {
+                built = Some(x);
+                break;
+            }
+        }
+        let (rec, fut) = match built {
+            Some(x) => x,
+            None => {
+                rep.inconclusive("exporter build failed");
+                continue;
+            }
+        };
+        let dst = SocketAddrV4::new(Ipv4Addr::new(127, 0, 0, 1), port);
+        let task = runtime.spawn(fut);
+        let mut ready = false;
+        for _ in 0..400 {
+            if TcpStream::connect(dst).is_ok() {
+                ready = true;
+                break;
+            }
+            std::thread::sleep(Duration::from_millis(5));
+        }
+        if !ready {
+            rep.inconclusive("exporter never accepted a probe connection");
+            task.abort();
+            continue;
+        }
+        rec.register_counter(&Key::from_name("scraped_total"), &MD).increment(1);
+        // make sure the worker threads and the blocking pool exist before descriptors run out
+        let warm = http_get(Ipv4Addr::new(127, 0, 0, 1), dst, "/metrics");
+        if !matches!(&warm, Ok(r) if r.status == 200) {
+            rep.inconclusive("warm-up scrape failed");
+            task.abort();
+            continue;
+        }
+        // lower the soft limit so that exhausting it is cheap, then use up every descriptor
+        let mut lim = libc::rlimit { rlim_cur: 0, rlim_max: 0 };
+        unsafe { libc::getrlimit(libc::RLIMIT_NOFILE, &mut lim) };
+        let old = lim;
+        lim.rlim_cur = lim.rlim_cur.min(512);
+        unsafe { libc::setrlimit(libc::RLIMIT_NOFILE, &lim) };
+        let mut hog: Vec<std::fs::File> = Vec::new();
+        while let Ok(f) = std::fs::File::open("/dev/null") {
+            hog.push(f);
+            if hog.len() > 2000 {
+                break;
+            }
+        }
+        // exactly one descriptor is free: the waiting client's own socket takes it, the exporter's accept() cannot get one
+        hog.pop();
+        let queued = connect_from(Ipv4Addr::new(127, 0, 0, 1), dst);
+        std::thread::sleep(Duration::from_millis(150 + 100 * (round % 2)));
+        drop(hog);
+        unsafe { libc::setrlimit(libc::RLIMIT_NOFILE, &old) };
+        let mut served_queued = None;
+        if let Ok(mut s) = queued {
+            s.set_read_timeout(Some(Duration::from_secs(10))).ok();
+            let r = s.write_all(b"GET /metrics HTTP/1.1\r\nHost: verif\r\nConnection: close\r\n\r\n").map_err(|e| format!("write: {}", e)).and_then(|_| {
+                let mut buf = Vec::new();
+                s.read_to_end(&mut buf).map_err(|e| format!("read: {}", e))?;
+                parse_response(&buf)
+            });
+            served_queued = Some(r.map(|x| x.status));
+        }
+        let later = http_get(Ipv4Addr::new(127, 0, 0, 1), dst, "/metrics").map(|x| x.status);
+        rep.case(mix(round, port as u64), served_queued.is_some());
+        rep.count("rounds:descriptors-exhausted-with-a-client-waiting", served_queued.is_some() as u64);
+        let ok_q = matches!(&served_queued, Some(Ok(200)) | None);
+        let ok_l = matches!(&later, Ok(200));
+        if !ok_q || !ok_l {
+            rep.violation("C18:later-client-not-served:after-descriptor-shortage", jo! {"what" => "after the process had run out of file descriptors for a moment (with one client waiting to be accepted), the waiting client and/or a later client were not served", "waiting_client" => format!("{:?}", served_queued), "later_client" => format!("{:?}", later), "exporter_task_finished" => task.is_finished()});
+        }
+        task.abort();
+        drop(rec);
+    }
+    rep
+}
+
 pub fn run(a: &Args) -> Option<Report> {
+    if a.leg == "emfile" {
+        return Some(run_emfile(a));
+    }
     if a.leg == "v6" {
         return Some(run_v6(a));
     }
